@@ -196,7 +196,7 @@ def mu_run(E, kind, inner):
 # whole runs with a symbolic stopping tolerance
 
 _RUN_DATA = {"2x2": [[3.0, 0.0], [1.0, 2.0]], "2x2e": [[3.0, 2.0], [0.0, 0.0]], "3x2": [[0.0, 0.0], [1.0, 4.0], [2.0, 0.0]], "2x2x2": [[[1.0, 0.0], [2.0, 1.0]], [[0.0, 3.0], [0.0, 1.0]]]}
-_RUN_GUESS = {2: [[3.0, 1.0], [2.0, 1.0]], 3: [[1.0, 2.0], [2.0, 0.0], [1.0, 1.0]]}
+_RUN_GUESS = {2: [[3.0, 1.0], [2.0, 1.0]], 3: [[1.0, 2.0], [2.0, 0.0], [1.0, 1.0]], "2z": [[3.0, 1.0], [0.0, 0.0]]}
 
 
 def _loglik(xc, m):
@@ -205,6 +205,8 @@ def _loglik(xc, m):
     for i in np.ndindex(*xc.shape):
         x, v = float(xc[i]), float(m[i])
         if x != 0:
+            if v <= 0:
+                return float("-inf")  # the model excludes an observed count
             ref += x * math.log(v)
         ref -= v
     return ref
@@ -213,12 +215,13 @@ def _loglik(xc, m):
 @ob("C11", params=[dict(alg="mu", data="2x2", kind="dense", R=1, iters=2), dict(alg="mu", data="3x2", kind="sparse", R=2, iters=2), dict(alg="mu", data="2x2x2", kind="dense", R=2, iters=2),
                    dict(alg="pdnr", data="2x2", kind="dense", R=1, iters=2), dict(alg="pdnr", data="2x2e", kind="sparse", R=1, iters=2), dict(alg="pdnr", data="3x2", kind="dense", R=2, iters=2),
                    dict(alg="pdnr", data="3x2", kind="sparse", R=2, iters=1), dict(alg="pdnr", data="2x2x2", kind="sparse", R=2, iters=1, _tier="thorough"),
-                   dict(alg="pqnr", data="2x2", kind="dense", R=1, iters=2), dict(alg="pqnr", data="2x2", kind="sparse", R=2, iters=1)],
+                   dict(alg="pqnr", data="2x2", kind="dense", R=1, iters=2), dict(alg="pqnr", data="2x2", kind="sparse", R=2, iters=1),
+                   dict(alg="pdnr", data="2x2", kind="dense", R=2, iters=2, zero_row=True), dict(alg="mu", data="2x2", kind="sparse", R=2, iters=2, zero_row=True)],
     max_paths=600, wall_s=300, validate=False, canon=True,
-    bounds="complete bounded runs (1-2 outer iterations, 2 inner iterations) on concrete count data with zeros / empty slices and a concrete non-negative guess (one with a zero entry); "
+    bounds="complete bounded runs (1-2 outer iterations, 2 inner iterations) on concrete count data with zeros / empty slices and a concrete non-negative guess (with a zero entry; with an all-zero row); "
            "the symbolic input is the stopping tolerance stoptol in (0, 1): every ordering of the tolerance against the KKT violations met is a path; exact rational arithmetic, "
            "log of constants evaluated in floating point")
-def run_for_every_tolerance(E, alg, data, kind, R, iters):
+def run_for_every_tolerance(E, alg, data, kind, R, iters, zero_row=False):
     """for every stopping tolerance the run returns a rank-R model of the data's shape with non-negative weights and entries; one non-negative KKT entry per outer iteration performed (<= maxiters); reported objective == recomputed log-likelihood of the returned model, not below the starting guess's; data and guess untouched"""
     arr = np.array(_RUN_DATA[data])
     X = ttb.tensor(E.const(arr), copy=False)
@@ -226,7 +229,7 @@ def run_for_every_tolerance(E, alg, data, kind, R, iters):
         X = X.to_sptensor()
     xc = O.den(X)
     tol = E.real("tol", positive=True, hi=1)
-    fs = [E.const(np.array(_RUN_GUESS[s])[:, :R][:: (1 if k % 2 == 0 else -1)].copy()) for k, s in enumerate(arr.shape)]
+    fs = [E.const(np.array(_RUN_GUESS["2z" if (zero_row and k == 0) else s])[:, :R][:: (1 if k % 2 == 0 else -1)].copy()) for k, s in enumerate(arr.shape)]
     K0 = ttb.ktensor(fs, E.const(np.array([2.0, 3.0][:R])), copy=False)
     snap = (O.cells(K0.weights), [O.cells(f) for f in K0.factor_matrices])
     start = _loglik(np.asarray(arr), np.asarray(O.den(K0), dtype=float))
@@ -243,8 +246,8 @@ def run_for_every_tolerance(E, alg, data, kind, R, iters):
         E.true(v >= 0, "KKT violations non-negative")
     m = np.asarray(O.den(M), dtype=float)
     ref = _loglik(np.asarray(arr), m)
-    E.true(abs(float(out["obj"]) - ref) <= 1e-9 * max(1.0, abs(ref)), "reported objective == Poisson log-likelihood of the returned model", f"{float(out['obj'])} vs {ref}")
-    E.true(ref >= start - 1e-9 * max(1.0, abs(start)), "the result is at least as likely as the starting guess", f"{ref} vs {start}")
+    E.true(float(out["obj"]) == ref or abs(float(out["obj"]) - ref) <= 1e-9 * max(1.0, abs(ref)), "reported objective == Poisson log-likelihood of the returned model", f"{float(out['obj'])} vs {ref}")
+    E.true(ref >= start - 1e-9 * max(1.0, abs(start)) if start != float("-inf") else True, "the result is at least as likely as the starting guess", f"{ref} vs {start}")
     E.eq(K0.weights, snap[0], "caller's guess: weights unchanged")
     for n in range(len(arr.shape)):
         E.eq(K0.factor_matrices[n], snap[1][n], "caller's guess: factors unchanged")
